@@ -748,11 +748,17 @@ func lazyInit(fr *frame, g *ssa.Global) {
 	savedFuel := fuel
 	fuel = 200_000_000
 	n0 := X.Instrs
-	call(i, fr, token.NoPos, pkg.Func("init"), nil)
+	initDepth++ // package initialisation happens before everything: no scheduling, no race bookkeeping
+	func() {
+		defer func() { initDepth-- }()
+		call(i, fr, token.NoPos, pkg.Func("init"), nil)
+	}()
 	fuel = savedFuel
 	X.InitInstrs += X.Instrs - n0
 	CallStack = saved
 }
+
+var initDepth int
 
 // skipInit: packages whose initialiser cannot be interpreted and whose
 // globals are modelled or unused.
